@@ -1,2 +1,118 @@
-/-! Stub driver root for the Ntv2 hand model; replaced by the model's line-protocol driver. -/
-def main : IO Unit := IO.println "stub"
+import GeodeVerif.Model.Ntv2
+import GeodeVerif.Num.Wire
+/-!
+# `ntvdrv` — line-protocol driver of the NTv2 hand model
+
+Requests (one per line, tokens separated by one space; floats are the 16 hex digits of the binary64
+pattern, strings travel as `h:<hex of the UTF-8 bytes>`):
+
+* `load <hex bytes of the .gsb file>`      → `OK n:<size>` (the file is parsed by `header`/…)
+* `header`                                 → `OK <grid fields> n:<k> <sub-grid fields>…` | `ERR:<kind>`
+* `interp <lat> <lon> <method> [o:<hexname>,…]` (optional: iteration order of the candidate set) → `OK f1 f2 f3 f4` | `OK none none none none` | `ERR:<kind>`
+* `cell <lat> <lon> <method>`              → `OK h:<name> i:<row> i:<col> i:<nrows> i:<ncols> b:<bicubic used> n:<first node byte>` | `OK none` | `ERR:<kind>`
+* `ntv2_2d <lat> <lon> <fwd 0|1> <method> <isgrid 0|1> [o:…]` → `OK lat lon` | `ERR:<kind>`
+-/
+open Ntv2 Wire
+
+def hexNib (c : UInt8) : UInt8 :=
+  if 48 ≤ c && c ≤ 57 then c - 48 else if 97 ≤ c && c ≤ 102 then c - 87
+  else if 65 ≤ c && c ≤ 70 then c - 55 else 0
+
+def parseHexBytes (s : String) : ByteArray := Id.run do
+  let u := s.toUTF8
+  let n := u.size / 2
+  let mut out := ByteArray.emptyWithCapacity n
+  for i in [0:n] do
+    out := out.push (hexNib (u.get! (2 * i)) * 16 + hexNib (u.get! (2 * i + 1)))
+  return out
+
+def hexDigit (n : Nat) : Char := if n < 10 then Char.ofNat (48 + n) else Char.ofNat (87 + n)
+def wStr (s : String) : String :=
+  "h:" ++ String.ofList (s.toUTF8.toList.flatMap (fun b => [hexDigit (b.toNat / 16), hexDigit (b.toNat % 16)]))
+def wInt (i : Int) : String := "i:" ++ toString i
+def wErr (e : Err) : String := "ERR:" ++ e.name
+
+def wSub (sg : SubGrid Float) : String :=
+  " ".intercalate [wStr sg.subName, wStr sg.parent, wStr sg.created, wStr sg.updated,
+    wire sg.sLat, wire sg.nLat, wire sg.eLong, wire sg.wLong, wire sg.latInc, wire sg.longInc,
+    wire sg.gsCount]
+
+def wGrid (g : Grid Float) : String :=
+  " ".intercalate ([wire g.numOrec, wire g.numSrec, wire g.numFile, wStr g.gsType, wStr g.version,
+    wStr g.systemF, wStr g.systemT, wire g.majorF, wire g.minorF, wire g.majorT, wire g.minorT,
+    wire g.subgrids.length] ++ g.subgrids.map wSub)
+
+def wNode (n : Node) : String := " ".intercalate [wire n.1, wire n.2.1, wire n.2.2.1, wire n.2.2.2]
+
+structure St where
+  bytes : ByteArray
+  grid : Except Err (Grid Float)
+
+def unHex (s : String) : String :=
+  match String.fromUTF8? (parseHexBytes s) with
+  | some t => t
+  | none => ""
+
+/-- `o:<hexname>,<hexname>,…` — the iteration order of the Python `set` of candidate names, as
+observed by the harness; candidates not listed keep their order at the end -/
+def permOf (tok : String) : List (SubGrid Float) → List (SubGrid Float) :=
+  let names := (((tok.drop 2).toString.splitOn ",").filter (· ≠ "")).map unHex
+  fun cands =>
+    names.flatMap (fun n => cands.filter (fun sg => sg.subName == n)) ++
+      cands.filter (fun sg => !(names.contains sg.subName))
+
+def handle (st : St) (toks : List String) : St × String :=
+  match toks with
+  | ["load", hx] =>
+    let b := parseHexBytes hx
+    ({ bytes := b, grid := readNtv2File b }, "OK " ++ wire b.size)
+  | ["load"] =>
+    let b := ByteArray.empty
+    ({ bytes := b, grid := readNtv2File b }, "OK " ++ wire b.size)
+  | ["header"] =>
+    (st, match st.grid with
+      | .error e => wErr e
+      | .ok g => "OK " ++ wGrid g)
+  | ["interp", la, lo, m, o] =>
+    (st, match st.grid with
+      | .error e => wErr e
+      | .ok g => match interpolate st.bytes g (pNum la) (pNum lo) m (permOf o) with
+        | .error e => wErr e
+        | .ok none => "OK none none none none"
+        | .ok (some n) => "OK " ++ wNode n)
+  | ["interp", la, lo, m] =>
+    (st, match st.grid with
+      | .error e => wErr e
+      | .ok g => match interpolate st.bytes g (pNum la) (pNum lo) m with
+        | .error e => wErr e
+        | .ok none => "OK none none none none"
+        | .ok (some n) => "OK " ++ wNode n)
+  | "cell" :: la :: lo :: m :: _ =>
+    (st, match st.grid with
+      | .error e => wErr e
+      | .ok g => match plan g (pNum la) (pNum lo) m (match toks with | [_, _, _, _, o] => permOf o | _ => id) with
+        | .error e => wErr e
+        | .ok none => "OK none"
+        | .ok (some p) => "OK " ++ " ".intercalate [wStr p.sg.subName, wInt p.cell.row, wInt p.cell.col,
+            wInt p.cell.numRows, wInt p.cell.numCols, wire p.cell.bicubic, wire p.startByte])
+  | "ntv2_2d" :: la :: lo :: fwd :: m :: isg :: rest =>
+    (st, match st.grid with
+      | .error e => wErr e
+      | .ok g => match ntv2_2d st.bytes g (isg == "1") (pNum la) (pNum lo) (fwd == "1") m
+          (match rest with | [o] => permOf o | _ => id) with
+        | .error e => wErr e
+        | .ok (a, b) => "OK " ++ wire a ++ " " ++ wire b)
+  | _ => (st, "ERR:bad-request")
+
+partial def loop (h out : IO.FS.Stream) (st : St) : IO Unit := do
+  let line ← h.getLine
+  if line.isEmpty then return ()
+  let toks := (line.trimAscii.toString.splitOn " ").filter (· ≠ "")
+  let (st', resp) := handle st toks
+  out.putStrLn resp
+  loop h out st'
+
+def main : IO Unit := do
+  let out ← IO.getStdout
+  loop (← IO.getStdin) out { bytes := ByteArray.empty, grid := .error .ValueError }
+  out.flush
